@@ -1,0 +1,83 @@
+//go:build verif
+
+package policysync
+
+import (
+	"github.com/projectcalico/calico/felix/types"
+)
+
+// Re-exports for the verification harness (/verif, property C31).  Compiled
+// only with -tags verif.  They let the harness drive the Processor's real
+// handlers synchronously (instead of through the goroutine in loop()) and read
+// its bookkeeping.  Nothing here changes behaviour.
+
+func (p *Processor) VerifHandleDataplane(update any) { p.handleDataplane(update) }
+
+func (p *Processor) VerifHandleJoin(r JoinRequest) { p.handleJoin(r) }
+
+func (p *Processor) VerifHandleLeave(r LeaveRequest) { p.handleLeave(r) }
+
+// VerifEndpoint is a read-only copy of one EndpointInfo.
+type VerifEndpoint struct {
+	ID             types.WorkloadEndpointID
+	HasOutput      bool
+	JoinUID        uint64
+	HasEndpoint    bool
+	SyncedPolicies []types.PolicyID
+	SyncedProfiles []types.ProfileID
+	SyncedIPSets   []string
+}
+
+// VerifState is a read-only copy of the Processor's bookkeeping (unsorted).
+type VerifState struct {
+	Endpoints       []VerifEndpoint
+	Policies        []types.PolicyID
+	Profiles        []types.ProfileID
+	ServiceAccounts []types.ServiceAccountID
+	Namespaces      []types.NamespaceID
+	IPSets          map[string][]string
+	InSync          bool
+}
+
+func (p *Processor) VerifState() VerifState {
+	s := VerifState{IPSets: map[string][]string{}, InSync: p.receivedInSync}
+	for id, ei := range p.endpointsByID {
+		ve := VerifEndpoint{ID: id, HasOutput: ei.output != nil, JoinUID: ei.currentJoinUID, HasEndpoint: ei.endpointUpd != nil}
+		for k, v := range ei.syncedPolicies {
+			if v {
+				ve.SyncedPolicies = append(ve.SyncedPolicies, k)
+			}
+		}
+		for k, v := range ei.syncedProfiles {
+			if v {
+				ve.SyncedProfiles = append(ve.SyncedProfiles, k)
+			}
+		}
+		for k, v := range ei.syncedIPSets {
+			if v {
+				ve.SyncedIPSets = append(ve.SyncedIPSets, k)
+			}
+		}
+		s.Endpoints = append(s.Endpoints, ve)
+	}
+	for id := range p.policyByID {
+		s.Policies = append(s.Policies, id)
+	}
+	for id := range p.profileByID {
+		s.Profiles = append(s.Profiles, id)
+	}
+	for id := range p.serviceAccountByID {
+		s.ServiceAccounts = append(s.ServiceAccounts, id)
+	}
+	for id := range p.namespaceByID {
+		s.Namespaces = append(s.Namespaces, id)
+	}
+	for id, si := range p.ipSetsByID {
+		ms := []string{}
+		for m := range si.members.All() {
+			ms = append(ms, m.String())
+		}
+		s.IPSets[id] = ms
+	}
+	return s
+}
